@@ -6,9 +6,12 @@
 package c20
 
 import (
+	"bytes"
 	"encoding/json"
 	"errors"
 	"fmt"
+	"net/http"
+	"net/http/httptest"
 	"sort"
 	"strings"
 	"testing"
@@ -24,6 +27,7 @@ import (
 	"github.com/trustbloc/sidetree-core-go/pkg/document"
 	"github.com/trustbloc/sidetree-core-go/pkg/observer"
 	"github.com/trustbloc/sidetree-core-go/pkg/processor"
+	restdoc "github.com/trustbloc/sidetree-core-go/pkg/restapi/dochandler"
 	"github.com/trustbloc/sidetree-core-go/pkg/versions/1_0/doctransformer/didtransformer"
 	"github.com/trustbloc/sidetree-core-go/pkg/versions/1_0/txnprocessor"
 	"pgregory.net/rapid"
@@ -56,6 +60,8 @@ type Action struct {
 	NextRecovery string        `json:"nextRecovery,omitempty"`
 	Consumes     string        `json:"consumes,omitempty"` // commitment of the key the operation reveals
 	LongForm     string        `json:"longForm,omitempty"`
+	// acceptedUnder (run time): genesis time of the protocol version in force when the request was accepted
+	acceptedUnder uint64
 }
 
 // Case is a workload.
@@ -66,7 +72,13 @@ type Case struct {
 	Actions     []Action `json:"actions"`
 	// MethodContexts: the node's DID transformers are configured with two method contexts
 	MethodContexts bool `json:"methodContexts,omitempty"`
+	// ViaREST: operations are submitted through the REST operations endpoint instead of the document handler directly
+	ViaREST bool `json:"viaRest,omitempty"`
 }
+
+type restMetrics struct{}
+
+func (restMetrics) HTTPCreateUpdateTime(time.Duration) {}
 
 var methodContexts = []string{"https://w3id.org/did/v1/method", "https://second.example/ctx"}
 
@@ -193,6 +205,7 @@ type pipeline struct {
 	// results the node handed out and a caller still holds (live object + JSON at the time it was returned)
 	held      []heldResult
 	methodCtx []string
+	stampErr  string // first accepted operation found stored under another version than the one in force at acceptance
 }
 
 type heldResult struct {
@@ -317,6 +330,9 @@ func (p *pipeline) expected(d *didModel, withUnpublished bool) (doc *refdoc.Doc,
 			if !used[j] && string(so.Type) == a.Type && sameJSON(so.OperationRequest, a.Request) {
 				used[j], found = true, true
 				o.Time, o.Num, o.Published, o.Ref = so.TransactionTime, so.TransactionNumber, true, so.CanonicalReference
+				if so.ProtocolVersion != a.acceptedUnder && p.stampErr == "" {
+					p.stampErr = fmt.Sprintf("%s operation %d of DID %s was accepted while the protocol version with genesis %d was in force, but is stored (and therefore applied) under protocol version %d", a.Type, i, d.suffix, a.acceptedUnder, so.ProtocolVersion)
+				}
 				break
 			}
 		}
@@ -376,12 +392,31 @@ func (p *pipeline) step(a *Action) (string, string) {
 func (p *pipeline) submit(a *Action) (string, string) {
 	var rr *document.ResolutionResult
 	var err error
-	if pn := ev.Catch(func() { rr, err = p.handler.ProcessOperation(a.Request, p.ledger.clock) }); pn != "" {
+	if p.c.ViaREST {
+		// through the REST operations endpoint (update handler -> document handler)
+		uh := restdoc.NewUpdateHandler(p.handler, p.pc, restMetrics{})
+		req := httptest.NewRequest(http.MethodPost, "/operations", bytes.NewReader(a.Request))
+		rw := httptest.NewRecorder()
+		if pn := ev.Catch(func() { uh.Update(rw, req) }); pn != "" {
+			return "C20/panic", "REST update handler panicked: " + pn
+		}
+		if rw.Code != http.StatusOK {
+			err = fmt.Errorf("HTTP %d: %s", rw.Code, ev.Trunc(rw.Body.String(), 200))
+		} else {
+			rr = &document.ResolutionResult{}
+			if jerr := json.Unmarshal(rw.Body.Bytes(), rr); jerr != nil {
+				return "C20/create-response", "REST operations endpoint answered 200 with a body that is not a resolution result: " + jerr.Error()
+			}
+		}
+	} else if pn := ev.Catch(func() { rr, err = p.handler.ProcessOperation(a.Request, p.ledger.clock) }); pn != "" {
 		return "C20/panic", "ProcessOperation panicked: " + pn
 	}
 	if err != nil {
 		p.feat["rejected-at-intake"] = true
 		return "", ""
+	}
+	if cv, cerr := p.pc.Current(); cerr == nil {
+		a.acceptedUnder = cv.Protocol().GenesisTime
 	}
 	d := p.dids[a.DID]
 	if a.Type == "create" {
@@ -496,6 +531,9 @@ func (p *pipeline) compareAll() (string, string) {
 			continue
 		}
 		doc, upd, rec, deact, applied, ok := p.expected(d, unpubN > 0)
+		if p.stampErr != "" {
+			return "C20/accepted-under-other-version", p.stampErr
+		}
 		if !ok {
 			continue
 		}
@@ -589,9 +627,9 @@ type clientDID struct {
 }
 
 func TestPipeline(t *testing.T) {
-	ev.Rule(chk, "rapid workloads over the whole pipeline made of real parts (DocumentHandler -> batch.Writer driven through the verif hook -> OperationHandler -> in-memory CAS -> recording ledger assigning time, non-monotone number, canonical and equivalent references -> Observer -> TxnProcessor -> operation store -> OperationProcessor -> didtransformer): 1-5 DIDs, 3-25 client operations (create / update / recover / deactivate with patch lists over all eight actions, all key types), drawn flush points (monitor / timeout ticks), maxOperationCount 1-4, operations submitted while an earlier one for the DID is still queued, one or two protocol versions (second one with sha2-512 first, fewer patch actions, later genesis time), with and without an unpublished-operation store, with and without two method contexts on the transformers; every result the node hands out stays held (last 16) and must not change while later requests are served; oracle: after every flush and at the end every DID resolves (ResolveDocument) to the kit/refdoc + reference prediction over its accepted operations in anchoring order (document projection, commitments, deactivated, published flag and canonical id once anchored); create response == long-form resolution before anchoring == short-form resolution after anchoring (modulo the DID string); non-trivial = a DID with >= 3 applied operations including a recover or deactivate, or an operation submitted while another is queued, or a version switch")
+	ev.Rule(chk, "rapid workloads over the whole pipeline made of real parts ((REST operations endpoint ->) DocumentHandler -> batch.Writer driven through the verif hook -> OperationHandler -> in-memory CAS -> recording ledger assigning time, non-monotone number, canonical and equivalent references -> Observer -> TxnProcessor -> operation store -> OperationProcessor -> didtransformer): 1-5 DIDs, 3-25 client operations (create / update / recover / deactivate with patch lists over all eight actions, all key types), drawn flush points (monitor / timeout ticks), maxOperationCount 1-4, operations submitted while an earlier one for the DID is still queued, one or two protocol versions (second one with sha2-512 first, fewer patch actions, later genesis time), with and without an unpublished-operation store, with and without two method contexts on the transformers; every result the node hands out stays held (last 16) and must not change while later requests are served; oracle: every stored operation carries the protocol version that was in force when it was accepted; after every flush and at the end every DID resolves (ResolveDocument) to the kit/refdoc + reference prediction over its accepted operations in anchoring order (document projection, commitments, deactivated, published flag and canonical id once anchored); create response == long-form resolution before anchoring == short-form resolution after anchoring (modulo the DID string); non-trivial = a DID with >= 3 applied operations including a recover or deactivate, or an operation submitted while another is queued, or a version switch")
 	ev.Rapid(t, chk, 60, 1200, func(t *rapid.T) {
-		c := &Case{Max: uint(rapid.IntRange(1, 4).Draw(t, "max")), TwoVersions: rapid.Bool().Draw(t, "twoVersions"), Unpublished: rapid.Bool().Draw(t, "unpublishedStore"), MethodContexts: rapid.Bool().Draw(t, "methodContexts")}
+		c := &Case{Max: uint(rapid.IntRange(1, 4).Draw(t, "max")), TwoVersions: rapid.Bool().Draw(t, "twoVersions"), Unpublished: rapid.Bool().Draw(t, "unpublishedStore"), MethodContexts: rapid.Bool().Draw(t, "methodContexts"), ViaREST: rapid.Bool().Draw(t, "viaRest")}
 		p := newPipeline(c)
 		defer p.close()
 		clients := map[int]*clientDID{}
